@@ -294,10 +294,16 @@ def worker(job):
         cid = 0
         # (-follow anywhere in the expression selects the -L records whatever -P / -H said before)
         for mode, lead, opt in (("P", ["-P"], []), ("H", ["-H"], []), ("L", ["-L"], []), ("L", ["-H"], ["-follow"]), ("L", [], ["-follow"]),
-                                ("L", ["-P"], ["-follow"])):
+                                ("L", ["-P"], ["-follow"]),
+                                # several of -P/-H/-L: the last one decides, whichever it is
+                                ("P", ["-L", "-P"], []), ("P", ["-H", "-P"], []), ("L", ["-P", "-L"], []), ("H", ["-L", "-H"], []),
+                                ("P", ["-L", "-H", "-P"], []), ("L", ["-H", "-L"], [])):
             batches = [tests[b:b + BATCH] for b in range(0, len(tests), BATCH)] + ordered
             if opt:
                 batches = batches[::3]
+            if len(lead) > 1:
+                batches = batches[(len(lead) + ord(lead[0][1])) % 4::4]
+                st.inc("batches_with_overridden_follow_flags", len(batches))
             for batch in batches:
                 cid += 1
                 args = ["find"] + lead + roots + opt + ["-sorted"] + label_args(batch)
